@@ -9,6 +9,7 @@ import (
 	"strings"
 
 	"golang.org/x/tools/go/packages"
+	"golang.org/x/tools/go/ssa"
 
 	"verif/internal/core"
 )
@@ -81,6 +82,37 @@ func runC14(c *core.Ctx) {
 					return true
 				})
 			}
+		}
+	}
+	// ---- order-sensitive published lists are a function of the configuration only ---------------
+	// (not of reload history): the sub-cluster list must be sorted as a whole before it is
+	// published (shared with C02), and the backend list of a sub-cluster must be rebuilt in an
+	// order derived from the new configuration.
+	publishedSorted(c, "published-canonical")
+	if up := c.P.Func("bfe_balance/bal_slb", "BalanceRR.Update"); up == nil {
+		c.Missing("bfe_balance/bal_slb.BalanceRR.Update")
+	} else if bf, ok := c.P.Obj("bfe_balance/bal_slb", "BalanceRR.backends").(*types.Var); ok {
+		for _, st := range core.FieldStores([]*ssa.Function{up}, bf) {
+			// canonical if the stored list was sorted as a whole before the store
+			sortedWhole := false
+			for _, sc := range core.Calls(up, "sort.Sort") {
+				if l := sortedList(sc); l != nil && core.StripConv(l) == core.StripConv(st.Store.Val) && core.Dominates(sc.(ssa.Instruction), st.Store) {
+					sortedWhole = true
+				}
+			}
+			// or if no element of the old list is carried over in its old position (list rebuilt from the config in config order)
+			carriesOld := false
+			core.Instrs(up, func(in ssa.Instruction) {
+				if call, isCall := in.(*ssa.Call); isCall {
+					for _, e := range appendedElems(call) {
+						if strings.Contains(core.Render(e), "brr.backends[") {
+							carriesOld = true
+						}
+					}
+				}
+			})
+			c.Check("published-canonical", "bfe_balance/bal_slb.BalanceRR.Update:backends", st.Store.Pos(), sortedWhole || !carriesOld,
+				"BalanceRR.Update publishes surviving backends in the order they had before the reload followed by the new ones: the list order (observable through smooth-WRR tie-breaking and WrrSimple's scan order) depends on the reload history, whereas a fresh Init of the same configuration uses the configuration's order")
 		}
 	}
 	if len(loops) < 50 {
